@@ -599,6 +599,126 @@ pub fn container_chain(r: &mut Rng, depth: usize) -> TV {
     v
 }
 
+fn small_knobs(max_depth: usize) -> Knobs {
+    Knobs { max_depth, max_nodes: 10, max_len: 3, max_str: 6, boundary_pct: 0 }
+}
+
+/// A chain of `links` nested containers whose every level also holds sibling values before
+/// and after the link (small values of every wire type, maps with one fixed-size and one
+/// variable-size side among them) and whose innermost level is a small composite value.
+/// The caller takes the depth from the value (`TV::depth`).
+pub fn rich_chain(r: &mut Rng, links: usize) -> TV {
+    let mut v = {
+        let mut cx = GenCtx::new(r, small_knobs(3));
+        let t = *cx.r.pick(&[T_STRUCT, T_MAP, T_LIST, T_SET]);
+        cx.any_of_type(t, 1)
+    };
+    for _ in 0..links {
+        let sib = |r: &mut Rng| -> TV {
+            match r.below(5) {
+                0 => TV::Map(T_BINARY, T_I64, (0..r.range(1, 3)).map(|i| (TV::Binary(vec![b'k', i as u8]), TV::I64(i as i64))).collect()),
+                1 => TV::Map(T_I32, T_BINARY, (0..r.range(1, 3)).map(|i| (TV::I32(i as i32), TV::Binary(vec![b'v'; i as usize]))).collect()),
+                2 => TV::Binary(r.bytes(3)),
+                _ => {
+                    let mut cx = GenCtx::new(r, small_knobs(2));
+                    let t = cx.any_type();
+                    cx.any_of_type(t, 1)
+                }
+            }
+        };
+        v = match r.below(4) {
+            0 => {
+                // struct level: siblings before and after the link
+                let mut fs = vec![];
+                let mut id = 0i16;
+                for _ in 0..r.below(4) {
+                    id += r.range(1, 9) as i16;
+                    fs.push((id, sib(r)));
+                }
+                id += r.range(1, 9) as i16;
+                fs.push((id, v));
+                for _ in 0..r.below(4) {
+                    id += r.range(1, 9) as i16;
+                    fs.push((id, sib(r)));
+                }
+                TV::Struct(fs)
+            }
+            1 => {
+                // list level: the link among elements of the same wire type
+                let t = v.ttype();
+                let mut xs = vec![];
+                let before = r.below(3);
+                let after = r.below(3);
+                for _ in 0..before {
+                    let mut cx = GenCtx::new(r, small_knobs(2));
+                    xs.push(cx.any_of_type(t, 1));
+                }
+                xs.push(v);
+                for _ in 0..after {
+                    let mut cx = GenCtx::new(r, small_knobs(2));
+                    xs.push(cx.any_of_type(t, 1));
+                }
+                if r.chance(1, 2) { TV::List(t, xs) } else { TV::Set(t, xs) }
+            }
+            2 => {
+                // map level, link as value: string keys, other entries around it
+                let t = v.ttype();
+                let mut kv = vec![];
+                let before = r.below(3);
+                let after = r.below(3);
+                for i in 0..before {
+                    let mut cx = GenCtx::new(r, small_knobs(2));
+                    kv.push((TV::Binary(vec![b'a', i as u8]), cx.any_of_type(t, 1)));
+                }
+                kv.push((TV::Binary(b"link".to_vec()), v));
+                for i in 0..after {
+                    let mut cx = GenCtx::new(r, small_knobs(2));
+                    kv.push((TV::Binary(vec![b'z', i as u8]), cx.any_of_type(t, 1)));
+                }
+                TV::Map(T_BINARY, t, kv)
+            }
+            _ => {
+                // map level, link as key
+                let t = v.ttype();
+                TV::Map(t, T_I64, vec![(v, TV::I64(5))])
+            }
+        };
+    }
+    v
+}
+
+/// A long run of small sibling containers (63..140 elements of one wire type, each drawn
+/// separately so that maps and lists differ in their own element types) inside a struct,
+/// followed by further fields: per-element bookkeeping errors add up over the run.
+pub fn wide_run(r: &mut Rng) -> TV {
+    let n = r.range(63, 140) as usize;
+    let t = *r.pick(&[T_MAP, T_MAP, T_LIST, T_SET, T_STRUCT, T_BINARY]);
+    let shape = r.below(4);
+    let elems: Vec<TV> = (0..n)
+        .map(|i| match (t, shape) {
+            (T_MAP, 0) => TV::Map(T_BINARY, T_I64, vec![(TV::Binary(vec![b'k'; i % 3]), TV::I64(i as i64))]),
+            (T_MAP, 1) => TV::Map(T_I16, T_BINARY, vec![(TV::I16(i as i16), TV::Binary(vec![b'v'; i % 4]))]),
+            (T_STRUCT, 0) => TV::Struct(vec![(15, TV::I8(i as i8))]),
+            (T_STRUCT, 1) => TV::Struct(vec![(r.range(1, 400) as i16, TV::Bool(i % 2 == 0)), (3000, TV::I16(7))]),
+            _ => {
+                let mut cx = GenCtx::new(r, small_knobs(2));
+                cx.any_of_type(t, 1)
+            }
+        })
+        .collect();
+    let run = match r.below(3) {
+        0 => TV::List(t, elems),
+        1 => TV::Set(t, elems),
+        _ => TV::Map(T_I32, t, elems.into_iter().enumerate().map(|(i, e)| (TV::I32(i as i32), e)).collect()),
+    };
+    let tail = {
+        let mut cx = GenCtx::new(r, small_knobs(3));
+        let tt = *cx.r.pick(&[T_STRUCT, T_LIST, T_MAP, T_BINARY]);
+        cx.any_of_type(tt, 1)
+    };
+    TV::Struct(vec![(1, run), (2, tail), (3, TV::Binary(b"end".to_vec()))])
+}
+
 /// A deep "spine" through the recursive fields of a struct type: at every level one
 /// struct-valued field (directly, through a list or through a map value) leads to the next
 /// level; the other fields are drawn as usual but kept shallow.
